@@ -46,6 +46,8 @@ var FaultPrelude = []string{
 	"rebind = (c, p) -> {\np = p + 1\nq = [p, p]\nboom(c, p)\n}",
 	"inloop = (j, c, k) -> {\ns = 0\nfor i <- fromto(0, 5) {\nif i == j boom(c, k)\ns = s + i\n}\ns\n}",
 	"outer = (j, c, k) -> {\nt = [j]\nfor v <- gfail(j, c, k) t = t + [v]\nt\n}",
+	wideOuter("woutera", 123), // 3 parameters + 123 locals + t + the loop variable: 128 slots, the size of a fresh iterator stack
+	wideOuter("wouterb", 140),
 	"sum = (n) -> {\ns = 0\nfor i <- fromto(0, n) s = s + i\ns\n}",
 	"counter = (n) -> {\nc = 0\ninc = () -> c + 1\ni = 0\nwhile i < n {\nc = inc()\ni = i + 1\n}\nc\n}",
 	"cnd = (i, j, c, k) -> if i == j boom(c, k) else i",
@@ -99,6 +101,18 @@ func ReaderSafe(s string) bool {
 		}
 	}
 	return false
+}
+
+// wideOuter is outer with n more locals: the frame that a loop's iterator
+// context copies is as wide as or wider than a fresh iterator stack.
+func wideOuter(name string, n int) string {
+	var sb strings.Builder
+	sb.WriteString(name + " = (j, c, k) -> {\n")
+	for i := 0; i < n; i++ {
+		fmt.Fprintf(&sb, "w%s = %d\n", string(rune('a'+i/26))+string(rune('a'+i%26)), i)
+	}
+	sb.WriteString("t = [j]\nfor v <- gfail(j, c, k) t = t + [v]\nt\n}")
+	return sb.String()
 }
 
 // Carrier generates one failing statement.
@@ -162,8 +176,13 @@ func (g *FaultGen) Carrier() Carrier {
 		return Carrier{Stmt: fmt.Sprintf("{\nzi = 0\nwhile zi < 5 {\nzi = zi + 1\nif zi == %d %s\nacc = acc + [zi]\n}\n}", j+1, boom),
 			Twin: fmt.Sprintf("{\nzi = 0\nwhile zi < 5 {\nzi = zi + 1\nif zi == %d return 0\nacc = acc + [zi]\n}\n}", j+1), Where: "in a top-level while body", Deep: true}
 	default:
-		if g.pick(2) == 0 {
+		switch g.pick(4) {
+		case 0:
 			return Carrier{Stmt: fmt.Sprintf("gb = inloop(%d, %d, %d)", j, c, k), Where: "in a loop inside a function", Deep: true}
+		case 1:
+			return Carrier{Stmt: fmt.Sprintf("gb = woutera(%d, %d, %d)", j, c, k), Where: "in a generator consumed inside a function with a 128 slot frame", Deep: true}
+		case 2:
+			return Carrier{Stmt: fmt.Sprintf("gb = wouterb(%d, %d, %d)", j, c, k), Where: "in a generator consumed inside a function with a wide frame", Deep: true}
 		}
 		return Carrier{Stmt: fmt.Sprintf("gb = outer(%d, %d, %d)", j, c, k), Where: "in a generator consumed inside a function", Deep: true}
 	}
@@ -172,7 +191,7 @@ func (g *FaultGen) Carrier() Carrier {
 var observers = []string{
 	"sum(6)", "counter(4)", "[ga, gb]", "acc", "for v <- gstop(3) acc = acc + [v * 2]", "ga = ga + 1", "gb = sum(3) + ga",
 	"for a, b <- fromto(0, 3), elems(\"xyz\") acc = acc + [b]", "down(30, 0, 7)", "boom(0, 3)", "{\nzc = mkboom(0, 9)\nzc()\n}",
-	"for v <- map(sq, () -> fromto(0, 4)) write(toa(v) + \" \")", "inloop(9, 0, 1)", "outer(9, 0, 1)", "write(toa(acc) + \"\\n\")", "acc = acc[0:#acc / 2]",
+	"for v <- map(sq, () -> fromto(0, 4)) write(toa(v) + \" \")", "inloop(9, 0, 1)", "outer(9, 0, 1)", "woutera(9, 0, 1)", "wouterb(2, 0, 1)", "write(toa(acc) + \"\\n\")", "acc = acc[0:#acc / 2]",
 	"for i <- fromto(0, 2) for k <- fromto(0, 2) ga = ga + i * k", "[sum(2), sum(3)] + [counter(2)]", "rebind(0, 4)", "app(boom, 0, 5)",
 	"zf(1)", "zg(\"w\")", "{\nzm = zh()\nzm(3)\n}", "gc = 100", "gd = \"bye \"", "[zf(41), zg(\"x\")]", "whilefn(9, 0, 1)", "for v <- whilegen(9, 0, 1) acc = acc + [v]",
 }
